@@ -571,3 +571,29 @@ func VfC04_LabelLists() {
 	closed, _ := hClosed(m)
 	vfAssert("C04.label-lists.closed", closed)
 }
+
+// VfC04_NonStructAlias: a type definition that names a non-struct type, and a
+// second name for it (`%w = type i32`, `%a = type %w`; both accepted by
+// llvm-as 14), used as the type of globals, a parameter and a struct field:
+// every named type object reachable from the module is one of the objects
+// that Module.TypeDefs lists (closure walk).
+//
+//vf:unwind 300
+func VfC04_NonStructAlias() {
+	w, a := hTwoLetters("W", "A")
+	body := [...]string{"i32", "<2 x i32>", "[2 x i32]"}[vfChoice("body", 3)]
+	init := [...]string{"7", "<i32 1, i32 2>", "[i32 1, i32 2]"}[vfChoice("body", 3)]
+	src := "%" + w + " = type " + body + "\n%" + a + " = type %" + w + "\n" +
+		"%s = type { i8, %" + a + ", %" + w + " }\n" +
+		"@g = global %" + a + " " + init + "\n@h = global %" + w + " " + init + "\n@k = global %s zeroinitializer\n" +
+		"declare void @f(%" + a + ", %" + w + "*)\n"
+	m, err := ParseString("t.ll", src)
+	vfReach("C04.non-struct-alias")
+	vfObserveStr("src", src)
+	vfAssert("C04.non-struct-alias.accepted", err == nil)
+	if err != nil {
+		return
+	}
+	closed, _ := hClosed(m)
+	vfAssert("C04.non-struct-alias.closed", closed)
+}
